@@ -16,7 +16,9 @@ TIMES_Q = [[0, 0, 0], [0, 0, 1], [0, 0, 74], [0, 1, 0], [0, 1, 74]]
 TIMES_T = TIMES_Q + [[0, 2, 0], [1, 0, 0]]
 
 
-OTHERS = {"REM GENRE Rock", 'PERFORMER "Nobody"', "FLAGS DCP", "PREGAP 00:02:00", "CATALOG 1234567890123"}
+OTHERS = {"REM GENRE Rock", 'PERFORMER "Nobody"', "FLAGS DCP", "PREGAP 00:02:00", "CATALOG 1234567890123",
+          # unrecognised lines that MENTION the keywords further right (recognition is anchored at the start of the line)
+          "REM re-ripped from track 2 of the 1994 pressing", "REM see INDEX 01 00:00:00", 'REM was FILE "old.bin" BINARY', 'REM TITLE "draft"'}
 
 
 def model(max_tracks, times, binlens, with_data=False, emit=True, others=("REM GENRE Rock",), repeats=(1,), dense=False):
